@@ -143,6 +143,22 @@ def structured_histories(rng, names):
   hs.append(dict(grads=[b(), b(), b(), b(), b(), b()], faults={}, tag="clean"))
   hs.append(dict(grads=[fg(rng, "1e-30", "whole", 1.0), fg(rng, "-inf", "entry", 1.0),
                         b(), b()], faults={0: "1e-30/whole", 1: "-inf/entry"}, tag="1e-30,-inf"))
+
+  # a coordinate that never receives gradient (dead unit / untouched embedding row): the statistics
+  # have an EXACT null space at every step, so with matrix_epsilon = 0 the Newton iteration never
+  # converges and runs to its iteration cap (added after a seeded change of that cap was missed: the
+  # iterate overflows to NaN while the reported error stays finite)
+  def dead(g):
+    g = {k: list(v) for k, v in g.items()}
+    if "w" in g:
+      g["w"][8:12] = [0.0] * 4          # third row of the 3x4 matrix
+    if "v" in g:
+      g["v"][1] = 0.0
+    if "x" in g:
+      g["x"][2] = 0.0
+    return g
+  hs.append(dict(grads=[dead(b()) for _ in range(6)], faults={t: "zero/deadrow" for t in range(6)},
+                 tag="dead-row"))
   return hs
 
 
